@@ -15,6 +15,9 @@ Directive syntax inside a template (`verus/units/<unit>.rs.in`):
   //@| <proof text placed at the start of that loop's body>
   //@after_text "<exact text>" [nth=<k>]
   //@| <spec text placed right after that text (closure contracts: `-> (r: T) requires .. ensures ..`)>
+  //@closure "<|params| text>" [nth=<k>]
+  //@| <closure contract `-> (r: T) requires .. ensures ..`; the closure must be the sole argument of a call:
+  //@      `CALL(|params| BODY)` becomes `CALL(|params| <contract> { BODY })`>
   //@drop "<statement prefix>" [nth=<k>]
   //@end
 
@@ -25,6 +28,7 @@ What extraction changes (exhaustive; also recorded per function in the report):
   * the named return `-> T` becomes `-> (ret: T)` when ret= is given;
   * rename=<ident> renames the extracted fn (several files define `write`; obligations are named per fn);
   * spec text (`//@|` lines) is inserted at the three kinds of places above;
+  * //@closure gives a closure argument its contract and wraps its body in braces (`{ BODY }`), nothing of BODY changes;
   * with iter=<ident> a `for` loop's ghost iterator is named (`in <ident>: EXPR`), nothing of PAT or EXPR changes;
   * attributes and doc comments in front of the fn are not copied;
   * statements named by //@drop are removed (logging macros only);
@@ -171,6 +175,7 @@ class Expander:
         # parse sub-blocks
         sig_spec, loops, befores, drops, after_texts, in_loops = [], {}, [], [], [], []
         loop_iters = {}
+        closures = []
         cur = sig_spec
         for b in block[k:]:
             if b.startswith("//@|"):
@@ -193,6 +198,11 @@ class Expander:
                 _p, _kv = _parse_kv(t)
                 cur = []
                 after_texts.append((_p[0], int(_kv.get("nth", "0")), cur))
+            elif b.startswith("//@closure "):
+                t = shlex.split(b[len("//@closure "):])
+                _p, _kv = _parse_kv(t)
+                cur = []
+                closures.append((_p[0], int(_kv.get("nth", "0")), cur))
             elif b.startswith("//@drop "):
                 t = shlex.split(b[len("//@drop "):])
                 _p, _kv = _parse_kv(t)
@@ -268,6 +278,25 @@ class Expander:
                     raise ExtractError("%s::%s: text anchor `%s` not found" % (rel, name, needle))
                 start_ = pos_ + 1
             ins.append((pos_ + len(needle), " " + "\n".join(txt) + "\n"))
+        for (needle, k2, txt) in closures:
+            # a closure that is the (last) argument of a call: `CALL(|params| BODY)` becomes
+            # `CALL(|params| <spec> { BODY })`. The anchor is the parameter list text; the body ends at the
+            # call's closing parenthesis (braces around an expression do not change it).
+            pos_ = -1
+            start_ = bo
+            for _ in range(k2 + 1):
+                pos_ = S.text.find(needle, start_, end)
+                if pos_ < 0:
+                    raise ExtractError("%s::%s: closure anchor `%s` not found" % (rel, name, needle))
+                start_ = pos_ + 1
+            q = pos_ - 1
+            while q > bo and S.mask[q] in " \t\r\n":
+                q -= 1
+            if S.mask[q] != "(":
+                raise ExtractError("%s::%s: closure `%s` is not the sole argument of a call" % (rel, name, needle))
+            close = match_brace(S.mask, q)
+            ins.append((pos_ + len(needle), " " + "\n".join(txt) + "\n{ "))
+            ins.append((close, " }"))
         for (prefix, k2) in drops:
             try:
                 a, b2 = S.find_stmt(bo, end, prefix, k2)
